@@ -50,7 +50,7 @@ func respellDirective(g *G, d string) string {
 		inner := arg[1 : len(arg)-1]
 		if g.chance(0.3) && inner != "" && !strings.ContainsAny(inner, " ,\t\"\\=;") {
 			arg = inner // quoted-string -> token
-		} else if g.chance(0.3) && inner != "" {
+		} else if g.chance(0.3) && inner != "" && !strings.Contains(inner, `\`) {
 			// sprinkle a quoted-pair
 			i := g.r.Intn(len(inner))
 			arg = `"` + inner[:i] + `\` + inner[i:] + `"`
@@ -132,6 +132,14 @@ func respellCC(g *G, values []string) []string {
 		cur += ows(g) + ","
 	}
 	lines = append(lines, cur)
+	if g.chance(0.12) {
+		// an empty (or white-space only) field line, first or last: an empty list element like any other
+		if g.chance(0.7) {
+			lines = append([]string{pick(g, "", " ", ",")}, lines...)
+		} else {
+			lines = append(lines, pick(g, "", " "))
+		}
+	}
 	return lines
 }
 
@@ -234,7 +242,7 @@ func (g *G) genSWR(id string) *History {
 		rp.Hang = hang
 		op := Op{Op: "req", AtNs: at, Method: "GET", URL: "http://a.test/swr", Replies: []Reply{rp}}
 		if g.chance(0.2) {
-			op.Cancel = pick(g, "before", "after")
+			op.Cancel = pick(g, "before", "after", "dl:60000000000", "dl:60000000000", "dl:1000000000", "dl:100000000000")
 		}
 		if g.chance(0.15) {
 			op.Hdr = Hdr{{"Cache-Control", pick(g, "max-stale=5", "only-if-cached", "no-cache", "max-age=1")}}
@@ -283,6 +291,22 @@ func (g *G) genFaithful(id string) *History {
 		{"Age", "7"}, {"X-From-Cache", "1"}, {"X-Httpcache-Status", "HIT"}, {"Warning", `110 - "stale"`}, {"Vary", "X-A"}} {
 		if g.chance(0.3) {
 			hd = append(hd, p)
+		}
+	}
+	if g.chance(0.15) {
+		// a valid Date that is not one IMF-fixdate line: the obsolete forms, or two lines
+		for i := range hd {
+			if hd[i][0] == "Date" {
+				switch g.r.Intn(3) {
+				case 0:
+					hd[i][1] = "Saturday, 01-Jan-00 00:00:00 GMT"
+				case 1:
+					hd[i][1] = "Sat Jan  1 00:00:00 2000"
+				default:
+					hd = append(hd, [2]string{"Date", hd[i][1]})
+				}
+				break
+			}
 		}
 	}
 	rp := Reply{Status: pick(g, 200, 200, 200, 203, 404, 410, 301), Hdr: hd, Body: g.randBody(), BodyFail: -1}
